@@ -129,7 +129,18 @@ def sequence(rng):
                 nontrivial=len(seq) > 1, tags=["len%d" % len(seq)])
 
 
+def cli_sequence(rng):
+    """the same sequences through `treetools transform --trans ...` (order as given, repeats allowed)"""
+    import cliseq
+    ts = [mk_tree(rng, plain=True) for _ in range(rng.randint(1, 3))]
+    seq, _ = gen_seq(rng)
+    seq = cliseq.perturb(rng, seq or [("root_attach", {})])
+    return cliseq.seq_case(rng, ts, seq, "cli-sequence")[0]
+
+
 def gen(seed, tier, scale):
+    for i in range((40 if tier == "quick" else 600) * scale):
+        yield 900000 + i, cli_sequence(case_rng(seed, ID, 900000 + i))
     idx = 0
     n1 = (1500 if tier == "quick" else 30000) * scale
     n2 = (1000 if tier == "quick" else 20000) * scale
